@@ -89,23 +89,35 @@ def _val(v):
     return None
 
 
+_SKIP = frozenset(("parent", "children", "domain", "c_point"))
+
+
 def node_digest(node):
-    d = node.__dict__
     items = []
-    for k in sorted(d):
-        if k in ("parent", "children", "domain", "c_point"):
+    for k, v in node.__dict__.items():
+        if k in _SKIP:
             continue
-        items.append((k, _val(d[k])))
-    items.append(("dom", tuple(tuple(float(b) for b in iv) for iv in node.get_domain())))
-    ch = node.get_children()
-    items.append(("nch", None if ch is None else len(ch)))
-    return tuple(items)
+        t = type(v)
+        if t is float or t is int or t is bool or v is None:
+            items.append(v)
+        elif t is list:
+            try:
+                items.append(hash(tuple(v)))
+            except TypeError:
+                items.append(_val(v))
+        else:
+            items.append(_val(v))
+    try:
+        dom = tuple([(float(iv[0]), float(iv[1])) for iv in node.domain])
+    except Exception:
+        dom = None
+    ch = node.children
+    return hash((tuple(items), dom, -1 if ch is None else len(ch)))
 
 
 def partition_digest(partition):
     out = []
-    root = partition.get_root()
-    stack = [root]
+    stack = [partition.get_root()]
     seen = set()
     while stack:
         n = stack.pop()
@@ -116,8 +128,9 @@ def partition_digest(partition):
         ch = n.get_children()
         if ch:
             stack.extend(reversed(ch))
-    out.append(("depth", partition.get_depth(), tuple(len(l) for l in partition.get_node_list())))
-    return tuple(out)
+    out.append(partition.get_depth())
+    out.append(tuple([len(l) for l in partition.get_node_list()]))
+    return hash(tuple(out))
 
 
 def algo_digest(algo, _depth=0):
@@ -130,6 +143,8 @@ def algo_digest(algo, _depth=0):
     d = algo.__dict__
     for k in sorted(d):
         v = d[k]
+        if k.startswith("_xmc"):
+            continue
         if isinstance(v, Partition):
             items.append((k, partition_digest(v)))
         elif isinstance(v, Algorithm):
@@ -143,7 +158,9 @@ def algo_digest(algo, _depth=0):
             vals = []
             for kk, vv in v.items():
                 key = tuple(kk.get_point()) if hasattr(kk, "get_point") else None
-                if hasattr(vv, "get_depth"):
+                if isinstance(vv, type):
+                    continue
+                if hasattr(vv, "get_depth") and hasattr(vv, "get_index"):
                     vv = (vv.get_depth(), vv.get_index())
                 vals.append((key, _val(vv)))
             items.append((k, tuple(vals)))
